@@ -785,4 +785,92 @@ theorem C18_entities_written_after_their_supertypes_total (es : List Entity) (ha
   obtain ⟨out, ho⟩ := EntityOrder.order_completes es roots
   exact ⟨out, ho, C18_entities_written_after_their_supertypes es hac _ roots out ho⟩
 
+/-! ## the recursion depth of `ENTITYhas_ancestor` suffices -/
+
+namespace EntityOrder
+
+/-- a supertype path from `n` up to `anc`; the list holds the entities passed, `n` first, `anc` excluded -/
+inductive Path (es : List Entity) : String → String → List String → Prop
+  | direct {anc n : String} {e : Entity} : find es n = some e → anc ∈ e.supers → Path es anc n [n]
+  | step {anc p n : String} {e : Entity} {l : List String} :
+      find es n = some e → p ∈ e.supers → Path es anc p l → Path es anc n (n :: l)
+
+theorem path_of_anc {es : List Entity} {anc n : String} (h : Anc es anc n) : ∃ l, Path es anc n l := by
+  induction h with
+  | direct hf hm => exact ⟨_, Path.direct hf hm⟩
+  | step hf hm _ ih => obtain ⟨l, hl⟩ := ih; exact ⟨_, Path.step hf hm hl⟩
+
+theorem isAncestor_of_path {es : List Entity} {anc n : String} {l : List String} (h : Path es anc n l) :
+    isAncestor es l.length anc n = true := by
+  induction h with
+  | direct hf hm =>
+    simp only [List.length_singleton, isAncestor, hf, List.any_eq_true, Bool.or_eq_true, beq_iff_eq]
+    exact ⟨_, hm, Or.inl rfl⟩
+  | step hf hm _ ih =>
+    simp only [List.length_cons, isAncestor, hf, List.any_eq_true, Bool.or_eq_true, beq_iff_eq]
+    exact ⟨_, hm, Or.inr ih⟩
+
+theorem path_nodes {es : List Entity} {anc n : String} {l : List String} (h : Path es anc n l) :
+    (∀ s ∈ l, s = n ∨ Anc es s n) ∧ (∀ s ∈ l, s ∈ es.map (·.name)) := by
+  induction h with
+  | direct hf hm =>
+    refine ⟨fun s hs => Or.inl (by simpa using hs), fun s hs => ?_⟩
+    rw [List.mem_singleton] at hs
+    subst hs; exact find_some_name_mem hf
+  | step hf hm _ ih =>
+    refine ⟨fun s hs => ?_, fun s hs => ?_⟩
+    · rcases List.mem_cons.mp hs with rfl | hs
+      · exact Or.inl rfl
+      · rcases ih.1 s hs with rfl | ha
+        · exact Or.inr (Anc.direct hf hm)
+        · exact Or.inr (anc_trans ha (Anc.direct hf hm))
+    · rcases List.mem_cons.mp hs with rfl | hs
+      · exact find_some_name_mem hf
+      · exact ih.2 s hs
+
+theorem path_nodup {es : List Entity} (hac : Acyclic es) {anc n : String} {l : List String} (h : Path es anc n l) :
+    l.Nodup := by
+  induction h with
+  | direct _ _ => simp
+  | @step p' n' e' l' hf hm hp ih =>
+    refine List.nodup_cons.mpr ⟨?_, ih⟩
+    intro hn
+    have hpn : Anc es p' n' := Anc.direct hf hm
+    rcases (path_nodes hp).1 n' hn with rfl | ha
+    · exact hac _ hpn
+    · exact hac _ (anc_trans ha hpn)
+
+theorem isAncestor_mono_le (es : List Entity) (anc n : String) :
+    ∀ (f g : Nat), f ≤ g → isAncestor es f anc n = true → isAncestor es g anc n = true := by
+  intro f g hle h
+  induction hle with
+  | refl => exact h
+  | step _ ih => exact isAncestor_mono es _ anc n ih
+
+end EntityOrder
+
+/-- `ENTITYhas_ancestor` with a recursion depth of the number of entities decides the supertype relation on acyclic
+schemas: the depth the model gives it always suffices (a supertype path never repeats an entity). -/
+theorem C18_has_ancestor_depth_suffices (es : List Entity) (hac : EntityOrder.Acyclic es) (anc n : String) :
+    isAncestor es es.length anc n = true ↔ Anc es anc n := by
+  constructor
+  · exact isAncestor_sound es es.length anc n
+  · intro h
+    obtain ⟨l, hl⟩ := EntityOrder.path_of_anc h
+    have hlen : l.length ≤ es.length := by
+      have := EntityOrder.nodup_subset_length_le l (es.map (·.name)) (EntityOrder.path_nodup hac hl) (EntityOrder.path_nodes hl).2
+      simpa using this
+    exact EntityOrder.isAncestor_mono_le es anc n _ _ hlen (EntityOrder.isAncestor_of_path hl)
+
+
+/-- Base classes are the supertypes in declaration order whenever no listed supertype is a (direct or indirect) supertype
+of another listed one — stated with the supertype relation itself (`Anc`) for acyclic schemas. -/
+theorem C18_bases_decl_order_of_unrelated_supertypes (es : List Entity) (hac : EntityOrder.Acyclic es) (e : Entity)
+    (h : ∀ r ∈ e.supers, ∀ o ∈ e.supers, ¬ Anc es r o) : bases es e = e.supers := by
+  apply C18_bases_decl_order_partial
+  intro r hr o ho
+  cases hb : isAncestor es es.length r o with
+  | false => rfl
+  | true => exact absurd ((C18_has_ancestor_depth_suffices es hac r o).mp hb) (h r hr o ho)
+
 end StepModel.GenPy
